@@ -104,7 +104,7 @@ Section Long.
     rewrite (events_print_output ZNum FmtStable_ZNum c0 [day_dup] eq_refl HP).
     cbn [map lognodes_of]. unfold reread_node at 1. cbn [header].
     change (fdate c0 (ln_time ZNum day_dup)) with (format_date toks0 (2020, 1, 2)%Z).
-    rewrite (format_parse_date_fits _ _ fits0). cbn [lognodes_of option_map]. f_equal. f_equal.
+    rewrite (format_parse_date_fits toks0 _ eq_refl fits0). cbn [lognodes_of option_map]. f_equal. f_equal.
     unfold day_merged. f_equal.
     cbn [elems reread_node ln_elems day_dup reread_elems map fst snd]. rewrite !reread_ZNum.
     unfold merge_elements. cbn [fold_left add_to fst snd]. rewrite beq_refl. reflexivity.
